@@ -225,7 +225,7 @@ func (g *pgen) lit() string {
 	case 10:
 		return "0o17"
 	case 11:
-		return "07"
+		return []string{"07", "float32(0.1)", "float32(-2.5e-05)", "float32(16777217)", "int8(-128)", "uint16(65535)", "int64(-9223372036854775808)", "uint8(7)", "float32(3.4028235e+38)", "uintptr(9)"}[g.r.Intn(10)]
 	default:
 		return fmt.Sprint(g.r.Int63())
 	}
